@@ -37,6 +37,8 @@ def showOne (s : State) : Show → String
 def touched : Op → List Show
   | .linsertl v _ | .lappendl v | .lprependl v | .lswap v | .lcopy v | .lassign v => [.l v, .l (1 - v)]
   | .leq _ _ | .aeq _ _ => []
+  | .lappendself v | .lprependself v | .linsertself v _ | .lassignself v => [.l v]
+  | .aappendself v | .aappendref v _ | .aresizeref v _ _ | .aassignself v => [.a v]
   | .lappend v _ | .lprepend v _ | .linsert v _ _ | .lremove v _ | .lremovev v _ | .lremoveFront v
   | .lremoveBack v | .lclear v | .lfind v _ | .lfront v | .lback v | .lsort v => [.l v]
   | .pswap v => [.p v, .p (1 - v)]
@@ -100,6 +102,14 @@ def parseOp (ws : List String) : Option Op :=
   | ["afront", v] => do pure (.afront (← v.toNat?))
   | ["aback", v] => do pure (.aback (← v.toNat?))
   | ["aeq", v, w] => do pure (.aeq (← v.toNat?) (← w.toNat?))
+  | ["lappendself", v] => do pure (.lappendself (← v.toNat?))
+  | ["lprependself", v] => do pure (.lprependself (← v.toNat?))
+  | ["linsertself", v, p] => do pure (.linsertself (← v.toNat?) (← p.toNat?))
+  | ["lassignself", v] => do pure (.lassignself (← v.toNat?))
+  | ["aappendself", v] => do pure (.aappendself (← v.toNat?))
+  | ["aappendref", v, i] => do pure (.aappendref (← v.toNat?) (← i.toNat?))
+  | ["aresizeref", v, n, i] => do pure (.aresizeref (← v.toNat?) (← n.toNat?) (← i.toNat?))
+  | ["aassignself", v] => do pure (.aassignself (← v.toNat?))
   | _ => none
 
 /-! The pointer-level model (PtrModel.lean) of the two List and the two PoolList variables is run in lockstep: every op is
@@ -145,6 +155,9 @@ def ptrOps (st : State) (op : Op) : Option (Nat × List Ptr.POp) :=
   | .lclear v => some (v, [.clear])
   | .lassign v => some (v, [.clear, .insertList 0 (other v)])
   | .lsort v => some (v, [.sort])
+  | .lappendself v => some (v, [.insertList (st.getL v).size (st.getL v).vals])
+  | .lprependself v => some (v, [.insertList 0 (st.getL v).vals])
+  | .linsertself v k => some (v, [.insertList k (st.getL v).vals])
   | .pappend v x => some (2 + v, [.insert (st.getP v).size x])
   | .premove v k => some (2 + v, [.remove k])
   | .premovev v k => some (2 + v, [.remove k])
